@@ -15,20 +15,20 @@ import (
 )
 
 type WorkerOut struct {
-	Prop       string             `json:"property"`
-	Build      string             `json:"build"`
-	From, To   uint64
+	Prop     string `json:"property"`
+	Build    string `json:"build"`
+	From, To uint64
 	// Done is one past the last run index executed: a process stops at its
 	// first violation, because a violation may have left package state
 	// corrupted for the runs that would follow in the same process.
-	Done       uint64             `json:"done"`
-	Stats      *hist.Stats        `json:"stats"`
-	Hashes     []string           `json:"hashes"`     // value hash per run, in run order
-	RawHashes  []string           `json:"raw_hashes"` // raw hash per run
-	Nontrivial []bool             `json:"nontrivial"`
-	Violations []*hist.RunResult  `json:"violations"`
-	Known      []string           `json:"known"`
-	Samples    []*hist.RunResult  `json:"samples"`
+	Done       uint64            `json:"done"`
+	Stats      *hist.Stats       `json:"stats"`
+	Hashes     []string          `json:"hashes"`     // value hash per run, in run order
+	RawHashes  []string          `json:"raw_hashes"` // raw hash per run
+	Nontrivial []bool            `json:"nontrivial"`
+	Violations []*hist.RunResult `json:"violations"`
+	Known      []string          `json:"known"`
+	Samples    []*hist.RunResult `json:"samples"`
 }
 
 func fatal2(format string, a ...interface{}) {
